@@ -76,6 +76,9 @@ def peel(t):
             return t
 
 
+VIEW_FNS = ('as_path', 'as_str', 'as_ref', 'as_slice', 'as_bytes', 'borrow', 'as_mut', 'as_os_str')
+
+
 def deep_peel(t):
     """peel() applied along the whole access path: &(*p).0 -> p.0"""
     t = peel(t)
@@ -103,6 +106,8 @@ def self_field_name(t, param=1):
             t = t[1]
         elif k == 'mutated':
             t = t[1]
+        elif k == 'call' and isinstance(t[1], str) and len(t[2]) == 1 and t[1].rsplit('::', 1)[-1] in VIEW_FNS:
+            t = t[2][0]
         else:
             break
     if t == ('param', param):
@@ -114,7 +119,7 @@ def is_field_of_self(t, field, param=1):
     return self_field_name(t, param) == field
 
 
-def freach(T, starts):
+def freach(T, starts, known=None):
     """Feasible reachability from `starts`: like reach(), but at a switch on the discriminant of a value that - on
     paths through `starts` - is a known enum variant (typically the Ok/Err result of an inlined callee examined by
     `?`), only the matching edge is followed. Returns (restricted Terms, set of blocks)."""
@@ -133,11 +138,17 @@ def freach(T, starts):
             sf = R.switch_facts(b)
             if sf is not None:
                 dt, edges = sf
-                v = _known_variant(norm(dt))
+                v = _known_variant(norm(dt), known)
                 if v is not None:
                     keep = [s for s, labs in edges.items() if any(l[0] == 'variant' and l[1] in v for l in labs)]
                     if keep:
                         succs = keep
+                elif known:
+                    bv = _known_bool(norm(dt), known)
+                    if bv is not None:
+                        keep = [s for s, labs in edges.items() if ('bool', bv) in labs]
+                        if keep:
+                            succs = keep
         for s in succs:
             st.append(s)
     R2 = T.restrict(starts, within=seen)
@@ -148,7 +159,23 @@ def freach(T, starts):
 _EQUIV = {'Ok': ('Ok', 'Continue'), 'Err': ('Err', 'Break'), 'Some': ('Some', 'Continue'), 'None': ('None', 'Break')}
 
 
-def _known_variant(dt):
+def _known_bool(dt, known):
+    if dt[0] == 'call' and isinstance(dt[1], str) and len(dt[2]) == 1:
+        a = dt[2][0]
+        if a[0] == 'ref':
+            a = a[1]
+        v = known.get(a)
+        if v is None:
+            return None
+        okish = v in ('Ok', 'Some')
+        if dt[1].endswith('::is_ok') or dt[1].endswith('::is_some'):
+            return okish
+        if dt[1].endswith('::is_err') or dt[1].endswith('::is_none'):
+            return not okish
+    return None
+
+
+def _known_variant(dt, known=None):
     if dt[0] != 'discr':
         return None
     x = dt[1]
@@ -158,6 +185,9 @@ def _known_variant(dt):
         via_try = True
     if x[0] == 'load':
         x = x[1]
+    if known and x in known:
+        v = known[x]
+        return _EQUIV.get(v, (v,))
     vs = set()
     for y in flatten_phi(x):
         if y[0] != 'adt':
@@ -293,7 +323,7 @@ def flatten_phi(t):
     return {t}
 
 
-def ret_terms(T, starts, local=0):
+def ret_terms(T, starts, local=0, known=None):
     """Normalised terms that local `_0` may hold at a `return` reachable from any block in `starts`, evaluated with
     reaching definitions restricted to paths through `starts`."""
     body = T.body
@@ -302,7 +332,7 @@ def ret_terms(T, starts, local=0):
         R = T
         seen = reach(body, [0])
     else:
-        R, seen = freach(T, starts)
+        R, seen = freach(T, starts, known)
     out = set()
     for b in seen:
         blk = body.blocks[b]
